@@ -197,23 +197,19 @@ def join_with_limit(  # noqa: PLR0911
 
 def error_context(text: str, index: int) -> tuple[str, int, int]:
     """Return a (line, lineno, col) tuple for position `index` in `text`."""
-    if not text:
-        return ("", 1, 0)
-
     lines = text.splitlines(keepends=True)
     cumulative_length = 0
-    target_line_index = len(lines) - 1
 
     for i, line in enumerate(lines):
         cumulative_length += len(line)
         if index < cumulative_length:
-            target_line_index = i
-            break
+            # Column number within the line (1-based)
+            column_number = index - (cumulative_length - len(line)) + 1
+            return (line.rstrip(), i + 1, column_number)
 
-    # Line number (1-based)
-    line_number = target_line_index + 1
-    # Column number within the line
-    column_number = index - (cumulative_length - len(lines[target_line_index])) + 1
-    current_line = lines[target_line_index].rstrip()
+    # `index` is at the end of `text`.
+    if not lines or lines[-1] != lines[-1].splitlines()[0]:
+        # After a trailing line break (or in an empty text) we're on a new line.
+        return ("", len(lines) + 1, 1)
 
-    return (current_line, line_number, column_number)
+    return (lines[-1].rstrip(), len(lines), len(lines[-1]) + 1)
